@@ -143,7 +143,7 @@ def wrapMilp (lm : LinModel α) (out : MlpOutcome α) : Res α :=
   else if lm.vars.any (fun v => (domainOf lm v).isNone) then .panic
   else if lm.rows.any (fun r => isStrict r.cmp) then .err "UnavailableComparison"
   else match out with
-  | .err e => .err (mapMlpError e)
+  | .err e => if e == "panic" then .panic else .err (mapMlpError e)   -- a panic inside the dependency propagates
   | .ok _ objective values =>
     let assignment := (zipNames lm.vars values).map fun (n, v) =>
       match domainOf lm n with
@@ -161,9 +161,20 @@ def wrapMilpFixed (lm : LinModel α) (out : MlpOutcome α) : Res α :=
   | .ok _, .ok .interrupted _ _ => .err "LimitReached"
   | r, _ => r
 
-/-- `auto_solver`. -/
+/-- a row of a variable-free model is the constant comparison `0 ⋈ rhs` (IEEE comparisons: false on NaN). -/
+def constRowHolds (r : LinRow α) : Bool :=
+  match r.cmp with
+  | .le => le (ofInt 0) r.rhs
+  | .ge => le r.rhs (ofInt 0)
+  | .eq => eq r.rhs (ofInt 0)
+  | .lt => lt (ofInt 0) r.rhs
+  | .gt => lt r.rhs (ofInt 0)
+
+/-- `auto_solver`: a model without variables is decided on the spot (every constant row must hold; the value is the
+offset), everything else goes to the MILP wrapper. -/
 def wrapAuto (lm : LinModel α) (out : MlpOutcome α) : Res α :=
-  if lm.domain.isEmpty then .ok (lpSolutionNew [] lm.offset [])
+  if lm.domain.isEmpty then
+    if lm.rows.all constRowHolds then .ok (lpSolutionNew [] lm.offset []) else .err "Infeasible"
   else wrapMilp lm out
 
 def isContinuous : VarType α → Bool
@@ -178,7 +189,7 @@ def wrapMicroLp (lm : LinModel α) (out : MlpOutcome α) : Res α :=
   else if lm.objective.length < lm.vars.length then .panic        -- `obj[i]` out of bounds
   else if lm.rows.any (fun r => isStrict r.cmp) then .err "UnavailableComparison"
   else match out with
-  | .err e => .err (mapMlpError e)
+  | .err e => if e == "panic" then .panic else .err (mapMlpError e)
   | .ok _ objective values =>
     if isInfinite objective then .err "Unbounded"
     else if isNaN objective then .err "Infeasible"
@@ -209,10 +220,26 @@ def goodLpRowError (nvars : Nat) : List (LinRow α) → Option String
     else if isStrict r.cmp then some "UnavailableComparison"
     else goodLpRowError nvars rs
 
-/-- `solve_real_lp_problem_clarabel` = `solve_with_good_lp` instantiated by `clarabel.rs`. -/
-def wrapClarabel (lm : LinModel α) (out : ClarabelOutcome α) : Res α :=
+/-- which of the two Clarabel-path repairs the code under test contains (both `false` = the code as it stands). -/
+structure ClarabelVariant where
+  /-- `fixes/C05-clarabel-empty-model.diff`: a variable-free model is decided from its constant rows -/
+  emptyModelHandled : Bool
+  /-- `fixes/C05-clarabel-dual-infeasible.diff`: dual infeasibility is `Unbounded` only if a zero-objective re-solve is
+  not proven infeasible -/
+  primalCheck : Bool
+  deriving Repr, Inhabited
+
+/-- `solve_real_lp_problem_clarabel` = `solve_with_good_lp` instantiated by `clarabel.rs`.
+`feas` = raw answer of the same problem with a zero objective (consulted only by the `primalCheck` variant). -/
+def wrapClarabelV (v : ClarabelVariant) (lm : LinModel α) (out feas : ClarabelOutcome α) : Res α :=
   if lm.domain.any (fun d => !(isContinuous d.ty)) then .err "InvalidDomain"
   else if lm.objective.length != lm.vars.length then .err "Other"
+  else if v.emptyModelHandled && lm.vars.isEmpty then
+    if lm.rows.all constRowHolds then
+      match calcObjective lm [], constraintsMap lm [] with
+      | some value, some cm => .ok (lpSolutionNew [] value cm)
+      | _, _ => .panic
+    else .err "Infeasible"
   else if lm.vars.any (fun v => (domainOf lm v).isNone) then .err "Other"
   else match goodLpRowError lm.vars.length lm.rows with
   | some e => .err e
@@ -220,16 +247,26 @@ def wrapClarabel (lm : LinModel α) (out : ClarabelOutcome α) : Res α :=
     match out with
     | .err "Unbounded" => .err "Unbounded"
     | .err "Infeasible" => .err "Infeasible"
+    | .err "panic" => .panic        -- a panic inside good_lp / clarabel propagates
     | .err _ => .err "Other"
     | .ok status x duals =>
-      -- clarabel.rs: (Almost)DualInfeasible is reported as Unbounded, without a primal feasibility check
-      if status == "DualInfeasible" || status == "AlmostDualInfeasible" then .err "Unbounded"
+      -- clarabel.rs: (Almost)DualInfeasible is reported as Unbounded (as it stands: without a primal feasibility check)
+      if status == "DualInfeasible" || status == "AlmostDualInfeasible" then
+        if v.primalCheck then
+          match feas with
+          | .err "Infeasible" => .err "Infeasible"
+          | _ => .err "Unbounded"
+        else .err "Unbounded"
       else
         let assignment := (zipNames lm.vars x).map fun (n, v) => (n, Val.real v)
         match calcObjective lm x, constraintsMap lm x with
         | some value, some cm =>
           .ok { status := .optimal, value := value, assignment := assignment, constraints := cm, shadow := collectDuals duals }
         | _, _ => .panic
+
+/-- the code as it stands. -/
+def wrapClarabel (lm : LinModel α) (out : ClarabelOutcome α) : Res α :=
+  wrapClarabelV { emptyModelHandled := false, primalCheck := false } lm out (.err "unused")
 
 /-! ### tableau simplex: `OptimalTableau::as_lp_solution` -/
 
